@@ -4,7 +4,7 @@ Helper lemmas are in Proofs/C03*.  Every theorem is about Model/C03, whose comma
 index expressions, type tables and masks are regenerated from /repo (Gen/C03); the device, its tables and
 the adversarial network are Spec/C03.
 -/
-import CfVerif.Proofs.C03Final
+import CfVerif.Proofs.C03Obj
 namespace CfVerif.C03
 open CfVerif
 
@@ -211,6 +211,94 @@ theorem complete_name_arity (t : Toc) (s : Bytes) (h : (splitDot s).length ≠ 2
   split
   · rename_i g n hs; rw [hs] at h; exact absurd rfl h
   · rfl
+
+/-! ## The `Toc` object over every history of mutations and installs
+
+A `Toc` object changes by `add_element`, `clear()` and by direct assignment of its dictionary (how `TocFetcher`
+installs a table found in the cache); lookups may happen at any point in between (before the download, on the
+still empty table, during it, after it).  The model's object state is the dictionary alone - which is what the
+code has: `gen_toc_object`. -/
+
+theorem gen_toc_object : Gen.C03.tocAttrs = ["self.toc"] ∧ Gen.C03.tocLookupWrites = [] ∧
+    Gen.C03.tocClearBody = ["self.toc = {}"] ∧
+    Gen.C03.cacheFetch = ["cache_data = self._toc_cache.fetch(self._crc)"] ∧
+    Gen.C03.cacheInstall = ["self.toc.toc = cache_data"] ∧ Gen.C03.cacheTests = ["cache_data"] := by decide
+
+/-- what was added, cleared, installed (or looked up) before a table is installed has no influence afterwards -/
+theorem history_before_install_irrelevant (pre post : List TocOp) (t : Toc) :
+    tocAfter (pre ++ TocOp.install t :: post) = post.foldl TocOp.apply t := by
+  unfold tocAfter
+  rw [List.foldl_append, List.foldl_cons]
+  rfl
+
+/-- **lookup agreement over all histories.**  After ANY history of `add_element` / `clear()` / installs of
+well-formed dictionaries (keys unique, each element under its own group and name - what a download produces and
+what the cache stores), if the idents in the table are pairwise different then at that point: every stored
+element is found under its (group, name), under its index and (dot-free names) under its complete name; and
+whatever one lookup path returns, the others return too. -/
+theorem lookups_agree_after_any_history (ops : List TocOp) (hinst : ∀ t, TocOp.install t ∈ ops → t.WF)
+    (hid : (tocAfter ops).IdentsNodup) :
+    let t := tocAfter ops
+    (∀ e ∈ t.elems, t.get e.group e.name = some e ∧ t.byId e.ident = some e ∧
+      (DotFree e.group → DotFree e.name → t.byCompleteName (e.group ++ 46 :: e.name) = some e)) ∧
+    (∀ g n e, t.get g n = some e → e ∈ t.elems ∧ e.group = g ∧ e.name = n ∧ t.byId e.ident = some e) ∧
+    (∀ i e, t.byId i = some e → e.ident = i ∧ t.get e.group e.name = some e) ∧
+    (∀ g n, DotFree g → DotFree n → t.byCompleteName (g ++ 46 :: n) = t.get g n) := by
+  intro t
+  have hwf : t.WF := tocAfter_wf ops hinst [] ⟨List.nodup_nil, by intro x hx; cases hx⟩
+  refine ⟨?_, ?_, ?_, fun g n hg hn => wf_byCompleteName t hwf hid g n hg hn⟩
+  · intro e he
+    refine ⟨wf_get_of_mem t hwf e he, byId_of_mem t hid e he, ?_⟩
+    intro hg hn
+    rw [wf_byCompleteName t hwf hid _ _ hg hn]
+    exact wf_get_of_mem t hwf e he
+  · intro g n e h
+    obtain ⟨he, hg, hn⟩ := wf_get_some t hwf g n e h
+    exact ⟨he, hg, hn, byId_of_mem t hid e he⟩
+  · intro i e h
+    obtain ⟨he, hi⟩ := byId_some t i e h
+    exact ⟨hi, wf_get_of_mem t hwf e he⟩
+
+/-- the dictionary a download builds is well-formed (so it may be cached and installed later) -/
+theorem downloaded_table_wf (es : List Elem) : (tocOf es).WF := by
+  have := tocAfter_wf (es.map TocOp.add) (by intro t ht; simp at ht) [] ⟨List.nodup_nil, by intro x hx; cases hx⟩
+  have h : (es.map TocOp.add).foldl TocOp.apply [] = tocOf es := by
+    unfold tocOf
+    generalize ([] : Toc) = t0
+    induction es generalizing t0 with
+    | nil => rfl
+    | cons e r ih => simp only [List.map_cons, List.foldl_cons]; exact ih _
+  rw [h] at this; exact this
+
+/-! ## Cache hit: the table is installed instead of downloaded -/
+
+/-- without a cached table the cache-aware callback is the plain one -/
+theorem cache_miss_is_download (dec : Nat → Bytes → Except PyErr Elem) (f : Fetcher) (chan : Nat) (data : Bytes) :
+    f.onPacketC dec (fun _ => none) chan data = f.onPacket dec chan data := by
+  unfold Fetcher.onPacketC
+  split
+  · rename_i h; simp [Fetcher.onPacket, h]
+  · split
+    · rename_i hst
+      split
+      · rename_i e he
+        unfold Fetcher.onPacket
+        simp [*]
+      · rfl
+    · rfl
+
+/-- **cache hit.**  In GET_TOC_INFO, when the cache holds a non-empty table for the CRC the device reports, the
+info reply alone finishes the download: that table is installed (whatever the holder contained or was asked
+before), nothing is requested, the finished callback runs, the callbacks are removed. -/
+theorem cache_hit_installs (dec : Nat → Bytes → Except PyErr Elem) (d : Dev) (f : Fetcher)
+    (hv : f.v2 = d.v2) (hst : f.st = .info) (hn : d.items.length < d.bound) (hc : d.crc < 4294967296)
+    (cache : Nat → Option Toc) (g : Bytes × List (Bytes × Elem)) (t : Toc) (hhit : cache d.crc = some (g :: t)) :
+    f.onPacketC dec cache 0 d.info =
+      .ok ⟨{ f with nbr := d.items.length, crc := d.crc, toc := g :: t, st := .done }, [], true⟩ := by
+  unfold Fetcher.onPacketC
+  have hi := info_unpackInfo d hn hc
+  simp only [Gen.C03.payloadDrop] at hi ⊢
+  simp only [ne_eq, not_true_eq_false, if_false, hst, hv, hi, hhit]
 
 /-! ## Persistence markers -/
 
